@@ -32,14 +32,14 @@ NOT_APPLICABLE = {}
 PROPS = {
     "C03": dict(level="exploration", engine="benum",
         technique="bounded-exhaustive enumeration of all tables (<=3/4 routes) x requests x matchers against a reference selection",
-        level_text="Every table of up to 3 (thorough: 4) routes over 7 host patterns x 4-6 paths, every request of 10 hosts x TLS x 6 paths, 3 matchers, glob matching on/off, is looked up in the real Table.Lookup / LookupHost and compared with a brute-force reference of the stated precedence; the enumeration is complete for that alphabet (exhaustive:true).",
+        level_text="Every table of up to 3 (thorough: 4) routes over 10 host patterns (with default ports, a wildcard that stands for nothing) x 6 paths, every request of 10 hosts x TLS x 9 paths, 3 matchers, glob matching on/off, is looked up in the real Table.Lookup / LookupHost and compared with a brute-force reference of the stated precedence; the enumeration is complete for that alphabet (exhaustive:true). Plus hand-built shapes the alphabet cannot hold: IPv6 literal hosts and 11-17 wildcard patterns matching one host.",
         level_note="Small-scope: host patterns are exact names or a leading '*' wildcard; paths literal (plus trailing-* for the glob matcher). Patterns using '?', '{}' or carrying a default port are outside the alphabet.",
         units=[
         unit("c03", "route", ROUTE_COMMON + ["route/c03_test.go"], "^TestVerifC03"),
     ], layers={"quick": ["c03-select", "c03-lookuphost", "c03-special"], "thorough": ["c03-select", "c03-lookuphost", "c03-special"]}),
     "C04": dict(level="exploration", engine="benum",
         technique="bounded-exhaustive enumeration of weight vectors and `route weight` programs; full round-robin cycles and every random-source answer enumerated",
-        level_text="Every weight vector of 1..4 (thorough: 5) targets over 13 weights through `route add`, and every `route weight` form over 2 services x 4 tag sets, checked on the real weighTargets/setWeight/rrPicker/rndPicker against an independent computation of the documented rule; ring shares, one full round-robin cycle and every answer of the random source are enumerated, not sampled.",
+        level_text="Every weight vector of 1..4 (thorough: 5) targets over 15 weights through `route add` and through NewTableCustom (differential), and every `route weight` form over 2 services x 4 tag sets, checked on the real weighTargets/setWeight/rrPicker/rndPicker against an independent computation of the documented rule; ring shares, one full round-robin cycle and every answer of the random source are enumerated, not sampled; the round-robin cursor is also set shortly before 2^8..2^33 lookups.",
         level_note="Weights outside the alphabet (non-finite, denormal, huge) are decided under C02 (never crash). Floating point comparison tolerance 1e-9; ring tolerance (k+1)/(10000-k).",
         units=[
         unit("c04", "route", ROUTE_COMMON + ["route/c04_test.go"], "^TestVerifC04"),
@@ -49,7 +49,7 @@ PROPS = {
     ], layers={"quick": ["c04-add", "c04-weightcmd", "c04-cursor", "c04-sched", "c04-listeners", "c04-admin"], "thorough": ["c04-add", "c04-weightcmd", "c04-cursor", "c04-sched", "c04-listeners", "c04-admin"]}),
     "C05": dict(level="model_checking", engine="xstate",
         technique="explicit-state BFS over route-command scripts with a reference interpreter; each transition rebuilds the real table with NewTable and compares",
-        level_text="All reachable reference states of a 19-command alphabet (add/del/weight in every documented form, hosts in mixed case, tags, opts, weights) are explored breadth-first (quick: depth 5 with state de-duplication; thorough: until the frontier empties); every transition is executed on the real parser + table and compared field by field with an independent interpreter; every state round-trips through Parse(Table.String()).",
+        level_text="All reachable reference states of a 30-command alphabet (add/del/weight in every documented form, hosts in mixed case, tags, opts, weights) are explored breadth-first (quick: depth 5 with state de-duplication; thorough: until the frontier empties); every transition is executed on the real parser + table and compared field by field with an independent interpreter; every state round-trips through Parse(Table.String()).",
         level_note="The reference interpreter is the trusted statement of the documented semantics. State merging is by the canonical reference table; it is sound because each transition checks that the real table equals that canonical form, so merged states have equal real tables. Effective-weight round trip tolerance 5e-4.",
         units=[
         unit("c05", "route", ROUTE_COMMON + ["route/c05_test.go"], "^TestVerifC05"),
@@ -74,7 +74,7 @@ PROPS = {
         layers={"quick": ["c02-sched", "c02-text", "c02-hist", "c02-custom", "c02-admin"], "thorough": ["c02-sched", "c02-text", "c02-hist", "c02-custom", "c02-admin"]}),
     "C12": dict(level="exploration", engine="benum",
         technique="bounded-exhaustive enumeration of rule strings x peers x X-Forwarded-For chains x credentials against a netip reference; end-to-end through HTTPProxy and the TCP proxies",
-        level_text="Every allow/deny list of up to 2 items from a 13-item alphabet (well-formed and malformed), 10 peer addresses (v4, v6, zone-scoped, v4-mapped), 7 X-Forwarded-For shapes, through the real option parser and AccessDeniedHTTP/TCP; auth scheme x credentials matrix; end-to-end status codes and upstream hit counters through HTTPProxy.ServeHTTP and the tcp proxies.",
+        level_text="Every allow/deny list of up to 2 items from a 17-item alphabet (well-formed and malformed), 10 peer addresses (v4, v6, zone-scoped, v4-mapped), 18 X-Forwarded-For shapes (several lines, ports, brackets, zones), through the real option parser and AccessDeniedHTTP/TCP; auth scheme x credentials matrix; end-to-end status codes and upstream hit counters through HTTPProxy.ServeHTTP and the tcp proxies.",
         level_note="Reference semantics from net/netip with v4-mapped addresses unmapped. Where the statement leaves a case open (address inside the well-formed part of a partly malformed rule) nothing is asserted.",
         units=[
         unit("c12-rules", "route", ROUTE_COMMON + ["route/sched_test.go", "route/c12_test.go"], "^TestVerifC12Rules", engines=SCHED),
@@ -102,7 +102,7 @@ PROPS = {
     ], layers={"quick": ["c08-headers", "c08-websocket"], "thorough": ["c08-headers", "c08-websocket"]}),
     "C13": dict(level="model_checking", engine="vsched",
         technique="bounded-exhaustive template x request product against an independent expansion + stateless model checking of simultaneous requests through ServeHTTP",
-        level_text="(inputs) 13 documented template forms x 9 paths x 3 queries x 2 hosts x strip x prepend x codes through the real HTTPProxy: status, Location and no upstream contact; invalid codes; the self-redirect skip. (schedules) every interleaving up to the reported preemption bound of 2-3 simultaneous requests through ServeHTTP over one shared redirect route; each gets its own Location. The route-package E1 scenarios of C06 (redirect-2req/3req) exercise the same seam at the Lookup level.",
+        level_text="(inputs) 14 template forms x 9 paths x 3 queries x 2 hosts x strip x prepend x codes x request kind x protocol version through the real HTTPProxy: status, Location and no upstream contact; invalid codes; the self-redirect skip. (schedules) every interleaving up to the reported preemption bound of 2-3 simultaneous requests through ServeHTTP over one shared redirect route; each gets its own Location. The route-package E1 scenarios of C06 (redirect-2req/3req) exercise the same seam at the Lookup level.",
         level_note="For templates without $path and without an own query the statement and fabio's own tests disagree on carrying the request query; both are accepted. Interleavings at sync-op and statement granularity of the rewritten route files.",
         units=[
         unit("c13", "proxy", PROXY_COMMON + ["proxy/c13_test.go"], "^TestVerifC13", engines=SCHED, rewrite=ROUTE_RW, race=True, sched_env={"GOMAXPROCS": "1"}),
@@ -138,7 +138,7 @@ PROPS = {
     ], layers={"quick": ["c10-sni", "c10-segments"], "thorough": ["c10-sni", "c10-segments"]}),
     "C11": dict(level="model_checking", engine="vsched",
         technique="bounded-exhaustive certificate-set x server-name selection (incl. real handshakes) + explicit enumeration of source histories through the real watch loop + stateless model checking of set replacement vs handshakes",
-        level_text="(selection) every ordered list of up to 3 of 6 generated leafs x 10 server names x strict/non-strict against the stated exact -> wildcard -> first/none rule, through getCertificate and real in-memory handshakes. (histories) every history up to length 4 (thorough 5) of 7 kinds of source answers through the real cert.watch with virtual sleep: published sets, never publishing bad material, no spinning. (schedules) every interleaving up to the reported bound of a publisher, the store's applier goroutine and 1-2 handshake threads.",
+        level_text="(selection) every ordered list of up to 3 of 11 generated leafs x 18 server names x strict/non-strict against the stated exact -> wildcard -> first/none rule, through getCertificate and real in-memory handshakes. (histories) every history up to length 4 (thorough 5) of 7 kinds of source answers through the real cert.watch with virtual sleep: published sets, never publishing bad material, no spinning. (schedules) every interleaving up to the reported bound of a publisher, the store's applier goroutine and 1-2 handshake threads; and of 2-3 handshakes that make the vault-pki source issue certificates (fake Vault), incl. a renewal under a handshake.",
         level_note="Wildcards are single-label (*.foo.com). The vault/consul/http sources share the watch loop; their transport is not exercised. When two certificates name the same host the later one is expected to win (that is what an index built in order does); first-wins would be flagged although the statement does not order them - no such set is in the alphabet except via the hand-picked pool where names are distinct.",
         units=[
         unit("c11-select", "cert", ["cert/c11_test.go"], "^TestVerifC11(Select|Publish)", engines=SCHED + ["vhook"]),
@@ -150,7 +150,7 @@ PROPS = {
     ], layers={"quick": ["c11-select", "c11-publish", "c11-listeners", "c11-load", "c11-watch", "c11-sched", "c11-issue"], "thorough": ["c11-select", "c11-publish", "c11-listeners", "c11-load", "c11-watch", "c11-sched", "c11-issue"]}),
     "C19": dict(level="exploration", engine="benum",
         technique="bounded-exhaustive configuration product through transport.SetConfig and main.newHTTPProxy, plus a causal timeout scenario matrix",
-        level_text="All 3^5 combinations of the five proxy transport options are pushed through the real transport.SetConfig and the three ways fabio builds transports (default, skip-verify, per-route host override) and read back field by field; the response-header timeout is additionally exercised end to end through ServeHTTP against an upstream that holds its headers until the harness releases it.",
+        level_text="All 3^5 combinations of the five proxy transport options are pushed through the real transport.SetConfig and the three ways fabio builds transports (default, skip-verify, per-route host override) and read back field by field; the response-header timeout is additionally exercised end to end through ServeHTTP against an upstream that holds its headers until the harness releases it, an upstream address that swallows connection attempts, and a websocket upgrade that is answered late; the five options are also loaded through config.Load next to other time options.",
         level_note="Dial timeout and keep-alive live inside a bound method value, so transport/transport.go is rewritten to build a recording vhook.Dialer (same fields, delegates to net.Dialer). The behavioural layer uses causal barriers with a 20 s guard. The history layer has to bound time (the statement is 'within that time'): timeout 3 s, allowed 5.5 s, so only a doubling or worse is reported.",
         units=[
         unit("c19", ".", MAIN_COMMON + ["main/c19_test.go"], "^TestVerifC19(Config|Behaviour|History)", engines=["vhook"], rewrite=[{"files": ["transport/transport.go"], "opts": ["-sel", "net.Dialer=vhook.Dialer"]}]),
@@ -166,7 +166,7 @@ PROPS = {
     ], layers={"quick": ["c15-sources", "c15-robust", "c15-junk", "c15-runnable"], "thorough": ["c15-sources", "c15-robust", "c15-junk", "c15-runnable"]}),
     "C14": dict(level="exploration", engine="benum",
         technique="bounded-exhaustive catalog-entry enumeration through routecmd.build -> route.NewTable with an independent expectation; history variant through the C01 pipeline",
-        level_text="The product of service names, addresses, ports, urlprefix forms, every <=2-subset of 16 option strings and 9 extra-tag shapes (quotes, backslashes, non-ASCII, newlines) is turned into route commands by the real routecmd.build next to a well-formed neighbour and fed to the real route.NewTable: the text must be accepted, the neighbour present, an expressible entry denoted exactly, an inexpressible one absent.",
+        level_text="The product of service names, addresses, ports, urlprefix forms, every <=2-subset of 22 option strings and 17 extra-tag shapes (quotes, backslashes, non-ASCII, newlines, commas, injected commands), with prometheus and statsd_raw metrics providers installed, is turned into route commands by the real routecmd.build next to a well-formed neighbour and fed to the real route.NewTable: the text must be accepted, the neighbour present, an expressible entry denoted exactly, an inexpressible one absent.",
         level_note="Expressibility is decided by an independent predicate (name without white space, finite numeric weight, no double quote/newline in tags or options). Tags containing a comma or surrounding white space, and a redirect option without URL, are left open.",
         units=[
         unit("c14", "registry/consul", ["consul/c14_test.go"], "^TestVerifC14Reg"),
@@ -195,7 +195,7 @@ PROPS = {
     ], layers={"quick": ["c09-tunnels", "c09-websocket", "c09-wsreal", "c09-sockets", "c09-proxyline"], "thorough": ["c09-tunnels", "c09-websocket", "c09-wsreal", "c09-sockets", "c09-proxyline"]}),
     "C18": dict(level="model_checking", engine="vsched",
         technique="stateless model checking of tcp.Server Serve/Shutdown under a controlled scheduler with virtual time + exhaustive scenario matrix on real http/https/tcp/grpc/sni servers with causal barriers",
-        level_text="(core) every interleaving up to the reported preemption bound of the real tcp.Server accept loop, 1-2 connection handlers (finishing early, late or never), a late connect and Shutdown with a virtual 10 s wait: no accept after the listeners were closed, early handlers are not cut off, Shutdown returns by the wait and leaves no connection open, no deadlock. (servers) the matrix listener kind x in-flight work x shutdown moment on real servers started through fabio's ListenAndServe* and stopped with proxy.Shutdown.",
+        level_text="(core) every interleaving up to the reported preemption bound of the real tcp.Server accept loop, 1-2 connection handlers (finishing early, late or never), a late connect and Shutdown with a virtual 10 s wait: no accept after the listeners were closed, early handlers are not cut off, Shutdown returns by the wait and leaves no connection open, no deadlock. (servers) the matrix listener kind x in-flight work x shutdown moment on real servers started through fabio's ListenAndServe* and stopped with proxy.Shutdown. (signals) every history of SIGHUP/SIGTERM/SIGINT up to length 2 (thorough 3) against the real main() in a child process, plus runs with a grace period, a tcp-dynamic listener and a websocket tunnel in flight.",
         level_note="net/http, grpc-go and the kernel cannot be put under the scheduler: for them this is a scenario matrix sequenced by causal barriers with a slack of 5 s (two orders of magnitude above scheduling noise), not an interleaving exploration. Shutdown is started only once the accept loop runs (a Shutdown racing server start-up is outside the statement).",
         units=[
         unit("c18-core", "proxy/tcp", TCP_COMMON + ["tcp/c10_test.go", "tcp/c09_test.go", "tcp/c18_test.go"], "^TestVerifC18", engines=SCHED + ["vhook", "vnet"], sched_env={"GOMAXPROCS": "1"}, shards={"quick": 4, "thorough": 12},
@@ -205,7 +205,7 @@ PROPS = {
     ], layers={"quick": ["c18-core", "c18-servers", "c18-signals"], "thorough": ["c18-core", "c18-servers", "c18-signals"]}),
     "C16": dict(level="model_checking", engine="xstate",
         technique="bounded-exhaustive call matrix through the real grpc stack with fabio's options + explicit enumeration of table/pool histories with the pool's clean-up timer owned by the harness",
-        level_text="(calls) the product call kind x request/reply message sequences (<=3 payloads of empty/1B/70kB) x metadata shapes (custom, binary, dsthost matching/not/twice) x backend outcomes x headers/trailers is executed through grpc.Server built from main.newGrpcProxy against instrumented TestService backends and compared for identity; no-route gives NotFound without contacting a backend. (histories) every history up to depth 3 (thorough 4) of {call A, call B, remove/add B, clean-up pass, restart B}: reuse of one connection per backend, drop after leaving the table, success after re-adding.",
+        level_text="(calls) the product call kind x request/reply message sequences (<=3 payloads of empty/1B/70kB) x metadata shapes (custom, binary, dsthost matching/not/twice, names without x-) x backend outcomes (incl. Unavailable) x headers/trailers, every fourth call gzip-compressed, is executed through grpc.Server built from main.newGrpcProxy against instrumented TestService backends and compared for identity; no-route gives NotFound without contacting a backend. (histories) every history up to depth 3 (thorough 4) of {call A, call B, remove/add B, clean-up pass, restart B}: reuse of one connection per backend, drop after leaving the table, success after re-adding.",
         level_note="grpc-go's own goroutines are not under a scheduler: the property does not quantify over schedules. Asynchronous effects (connection closed at the backend) are awaited with a 10 s guard. A TLS (grpcs) backend appears only in the history layer (redeployment of B with the other transport).",
         units=[
         unit("c16", ".", MAIN_COMMON + ["main/c16_test.go", "main/c18_sig_test.go"], "^TestVerifC16Calls", engines=["vhook"], rewrite=[{"files": ["proxy/grpc_handler.go"], "opts": ["-sel", "time.Sleep=vhook.ScaledSleep", "-sel", "time.NewTicker=vhook.NewTicker", "-sel", "time.Tick=vhook.Tick", "-sel", "time.After=vhook.After", "-sel", "time.NewTimer=vhook.NewTimer", "-sel", "time.AfterFunc=vhook.AfterFunc"]}]),
